@@ -26,7 +26,16 @@ TFSel == IsEvent("fsel") /\ LET e == Rec[l] IN FSelect(e.field, e.a, e.b, e.choi
 TFEq == IsEvent("feq") /\ LET e == Rec[l] IN FEq(e.field, e.form, e.a, e.b) /\ fobs'.out = e.out
 TFFrom == IsEvent("ffrom") /\ LET e == Rec[l] IN FFromInt(e.field, e.ty, e.v) /\ fobs'.out = e.out
 TFLeg == IsEvent("flegendre") /\ LET e == Rec[l] IN FLegendre(e.field, e.a) /\ fobs'.out = e.out
-TFSqrt == IsEvent("fsqrt") /\ LET e == Rec[l] IN FSqrtOK(e.field, e.a, e.some, e.y)
+\* plain events: the square-root contract.  In-place variants additionally report what the operand holds afterwards:
+\* the result on success, the ORIGINAL value on failure (sqrt of a non-residue, inverse of zero)
+TFSqrt == IsEvent("fsqrt") /\ LET e == Rec[l] m == Modulus(e.field) IN
+            IF Has(e, "inv")
+            THEN /\ Canon(e.field, e.a) /\ Canon(e.field, e.after)
+                 /\ e.some = (Val(e.field, e.a) # MZero(m))
+                 /\ IF e.some THEN MMul(m, Val(e.field, e.after), Val(e.field, e.a)) = MOne(m) ELSE NEq(e.after, e.a)
+                 /\ UNCHANGED <<fobs, fhseen>>
+            ELSE /\ FSqrtOK(e.field, e.a, e.some, e.y)
+                 /\ Has(e, "after") => (Canon(e.field, e.after) /\ IF e.some THEN NEq(e.after, e.y) ELSE NEq(e.after, e.a))
 TFSer == IsEvent("fser") /\ LET e == Rec[l] IN FSerialize(e.field, e.form, e.v) /\ fobs'.out = e.out
 TFParse == IsEvent("fparse") /\ LET e == Rec[l] IN FParse(e.field, e.form, e.b) /\ fobs'.ok = e.ok /\ fobs'.out = e.out
 TFReduce == IsEvent("freduce") /\ LET e == Rec[l] IN FReduce(e.field, e.form, e.endian, e.b) /\ fobs'.out = e.out
